@@ -191,7 +191,7 @@ func c15FlagPairs(r *run.Run) {
 	alphabet := []rune{'A', 'B', 'M', 'N', 'L'}
 	lookups := []int{5, 7} // GSUB4 AAA->X AA->Y AB->L; GSUB4 AM->X A->Y
 	r.Explore(explore.Config{Name: "C15.flag-pairs"},
-		fmt.Sprintf("Layouter.Layout on a font with GDEF classes, attachment classes and two mark sets and two ligature lookups under the liga feature: ALL pairs of lookup flags from the %d-entry flag menu x 2 x 2 lookups, on all strings of length <= 4 over {A,B,M,N,L} laid out with one reused Layouter: equals the reference pipeline", len(gen.Flags)),
+		fmt.Sprintf("Layouter.Layout on a font with GDEF classes, attachment classes and two mark sets and two ligature lookups under the liga feature: ALL pairs of lookup flags from the %d-entry flag menu x 2 x 2 lookups, on all strings of length <= 4 (quick) / 5 over {A,B,M,N,L} laid out with one reused Layouter: equals the reference pipeline", len(gen.Flags)),
 		func(c *explore.Ctx) {
 			f1 := gen.Flags[c.Choose(len(gen.Flags), "flags of the first lookup")]
 			f2 := gen.Flags[c.Choose(len(gen.Flags), "flags of the second lookup")]
@@ -209,7 +209,11 @@ func c15FlagPairs(r *run.Run) {
 				c.Fail("C15.layouter", "NewLayouter", "NewLayouter fails: %v", err)
 				return
 			}
-			allStrings(alphabet, 4, func(s string) bool {
+			maxLen := 4
+			if !r.Quick() {
+				maxLen = 5
+			}
+			allStrings(alphabet, maxLen, func(s string) bool {
 				got := append([]glyph.Info{}, lay.Layout(s)...)
 				want := refLayout(f, s, language.Und, nil, nil)
 				if !infosEqual(got, want) {
